@@ -13,7 +13,7 @@ cargo test --workspace --no-fail-fast --offline 2>&1 | grep -E "^test result|FAI
 passed=$(grep -E "^test result" $wt/verify_$ab.tests | sed -E 's/.* ([0-9]+) passed.*/\1/' | paste -sd+ | bc)
 failed=$(grep -E "^test result" $wt/verify_$ab.tests | sed -E 's/.* ([0-9]+) failed.*/\1/' | paste -sd+ | bc)
 echo "suite with patch: passed=$passed failed=$failed"
-if [ -f "$out/demo.diff" ]; then git apply "$out/demo.diff" || echo "demo.diff does not apply"; fi
+if [ -f "$out/demo.diff" ]; then git apply "$out/demo.diff" || echo "demo.diff does not apply"; else cp "$out"/*.rs tests/ 2>/dev/null; fi
 ( eval "$demo" ) > $wt/verify_$ab.demo_with 2>&1; with=$?
 git apply -R "$out/patch.diff" || echo "cannot revert patch"
 ( eval "$demo" ) > $wt/verify_$ab.demo_without 2>&1; without=$?
